@@ -57,6 +57,8 @@ impl<T: Debug> WorkStealQueue<T> {
         // count first, with an atomic add: the counter must never under-report,
         // otherwise the fast path of `pop` strands items
         _ = self.len.fetch_add(1, Ordering::AcqRel);
+        #[cfg(open_coroutine_verif)]
+        crate::common::verif::pause("shared_push_between_count_and_insert");
         self.shared_queue.push(item);
     }
 
